@@ -275,7 +275,8 @@ def work_pyview(task):
 
 def work_pystruct(task):
     """structure-only pass over deeper chains: root, qualifier, storage identity, _root + _ref_spec positions"""
-    q, kind, W, maxlen, extended, part, nparts = task
+    q, kind, W, maxlen, extended, part, nparts = task[:7]
+    siblings = task[7] if len(task) > 7 else True
     q = tuple(q)
     env = V._imports()
     out = {"problems": [], "n": 0, "nontrivial": 0, "rejected": 0, "task": [list(q), kind, W]}
@@ -284,7 +285,7 @@ def work_pystruct(task):
             continue
         terms = [None] + (list(range(len(m[1]))) if m[0] != "Bit" else [])
         for it in terms:
-            pr, err = V.py_check_structure(env, q, kind, W, ch, it)
+            pr, err = V.py_check_structure(env, q, kind, W, ch, it, siblings)
             out["n"] += 1
             if pr is None:
                 out["rejected"] += 1
@@ -348,7 +349,7 @@ def part_pyview(run: Run):
     for q in V.QKINDS:
         if run.thorough:
             st += [(q, k, 4, 3, True, i, 4) for k in ("BV", "U", "S") for i in range(4)]
-            st += [(q, "BV", 5, 3, False, i, 4) for i in range(4)]
+            st += [(q, "BV", 5, 3, False, i, 4, False) for i in range(4)]  # (sibling pass: the W=4 families)
             st += [(q, k, W, 3, True, 0, 1) for k in ("BV", "U", "S") for W in (1, 2, 3)]
         else:
             st += [(q, "BV", 4, 3, False, i, 2) for i in range(2)]
